@@ -240,8 +240,18 @@ class Classifier(object):
                     if v:
                         out.append(("ok", "format field %s holds comment text" % t.attr))
                     elif v is None:
-                        out.append(("unknown", "attribute %s assigned a value the classifier cannot "
-                                               "resolve" % (pyflow.dotted(t) or t.attr)))
+                        # where does the field end up?  if some template that uses {field} is not a comment, the
+                        # option changes code
+                        uses = [x.value for x in ast.walk(self.mod.tree) if isinstance(x, ast.Constant)
+                                and isinstance(x.value, str) and ("{%s}" % t.attr) in x.value]
+                        code_use = [u for u in uses for line in u.split("\n") if ("{%s}" % t.attr) in line
+                                    and not any(line.lstrip("+-@^\t ").startswith(l) for l in self.leaders)]
+                        if code_use:
+                            out.append(("bad", "format field %s is set under the option guard and is used in a non-comment "
+                                               "template (%r)" % (t.attr, code_use[0].strip()[:50])))
+                        else:
+                            out.append(("unknown", "attribute %s assigned a value the classifier cannot "
+                                                   "resolve" % (pyflow.dotted(t) or t.attr)))
                     else:
                         out.append(("bad", "attribute %s assigned non-comment text %r under the option guard"
                                     % (pyflow.dotted(t) or t.attr, self.mod.seg(st.value)[:60])))
@@ -556,6 +566,28 @@ def run(repo, run, tier):
                           "Shroud <version>` header line", m.loc(node),
                           sample=dict(where="%s.%s" % (m.name, q)))
     run.floor(R3, "write_version reads", n3, 3)
+    # literalinclude markers: the start and end markers of one region use the comment leader of the same language
+    wh = repo.module("whelpers")
+    npairs = 0
+    for q, fn in sorted(wh.functions().items()):
+        for node in ast.walk(fn):
+            if not isinstance(node, ast.If):
+                continue
+            marks = {}
+            for a in node.body:
+                if isinstance(a, ast.Assign) and isinstance(a.targets[0], ast.Name) and a.targets[0].id in ("lstart", "lend"):
+                    names = [x.id for x in ast.walk(a.value) if isinstance(x, ast.Name) and x.id in COMMENT_NAMES]
+                    marks[a.targets[0].id] = names
+            if "lstart" in marks and "lend" in marks:
+                npairs += 1
+                langs = set(nm[0] for nm in marks["lstart"] + marks["lend"])
+                kinds = (marks["lstart"][:1] == [list(langs)[0] + "start"] if len(langs) == 1 else False) and \
+                    (marks["lend"][:1] == [list(langs)[0] + "end"] if len(langs) == 1 else False)
+                run.check(R1, "whelpers.%s:markers@%d" % (q, node.lineno - fn.lineno), len(langs) == 1 and kinds,
+                          "the region markers use %s / %s: a marker written with the other language's comment leader is a "
+                          "syntax error in the generated file when literalinclude is on" % (marks["lstart"], marks["lend"]),
+                          wh.loc(node))
+    run.floor(R1, "marker pairs in helper builders", npairs, 1)
     # multi-line documentation text: every physical line carries the comment leader
     um = repo.module("util")
     wd = um.func("WrapperMixin.write_doxygen")
